@@ -3,6 +3,7 @@
   The definitions under `Esc.Gen` are REGENERATED from /repo on every run (extract/): deleting or
   weakening a validation conjunct in the source breaks `C16_sound` below.
 -/
+import EscProofs.P.Assemble
 import Esc.Gen.Validate
 import Esc.Gen.Keys
 namespace Esc.P
